@@ -1491,6 +1491,41 @@ def records_seen(obs, host, t_hi):
     return out
 
 
+def shadow_cache(obs, host, name, t_hi):
+    """which SRV / TXT records of instance `name` are alive in `host`'s cache at t_hi, and when each was last received -- computed
+    from the deliveries the host's listener PROCESSED (`obs["ignored"]` left out), with the cache rules of RFC 6762 10.2 as the library
+    implements them: a record is refreshed in place when it arrives again; a record with TTL 0 is removed; when a datagram carries a
+    cache-flush record of a name / type, every OTHER cached record of that name / type received more than 1000 ms ago expires one
+    second later; a record expires TTL seconds after it was last received.  -> {("srv", port) | ("txt", hex): last received}"""
+    from zeroconf import DNSIncoming
+    from zeroconf._dns import DNSService, DNSText
+
+    ign = {x[0] for x in obs.get("ignored", [])}
+    cache = {}  # key -> [last received, expires at]
+    memo = obs.setdefault("_parsed", {})
+    for pos, e in enumerate(obs["trace"]):
+        if e[1] != "dlv" or e[4] != host or e[0] > t_hi or pos in ign:
+            continue
+        recs = memo.get(e[2])
+        if recs is None:
+            m = DNSIncoming(bytes.fromhex(obs["datagrams"][e[2]][4]))
+            recs = memo[e[2]] = [] if (not m.valid or m.is_query()) else m.answers()
+        t = e[0]
+        mine = [(("srv", r.port) if isinstance(r, DNSService) else ("txt", r.text.hex()), r) for r in recs
+                if isinstance(r, (DNSService, DNSText)) and r.name.lower() == name]
+        for key, r in mine:  # refresh / insert / remove first (`async_updates_from_response` resets the TTL of a known record in its loop)
+            if r.ttl == 0:
+                cache.pop(key, None)
+            else:
+                cache[key] = [t, t + 1000 * r.ttl]
+        for kind in {key[0] for key, r in mine if r.unique and r.ttl > 0}:  # then the cache-flush rule for the types that had a unique record
+            present = {key for key, r in mine}
+            for key, v in cache.items():
+                if key[0] == kind and key not in present and t - v[0] > 1000:
+                    v[0], v[1] = t, t + 1000
+    return {key: v[0] for key, v in cache.items() if v[1] > t_hi}
+
+
 def lookup_wrong_cause(case, obs, lk, vs, allv):
     """classify a wrong lookup result from the INPUT side (what reached the host), never from the library's state.
 
@@ -1506,36 +1541,24 @@ def lookup_wrong_cause(case, obs, lk, vs, allv):
     old = [k for k, x in enumerate(allv) if x not in vs and x["t"] <= lk["t1"] and x["port"] == lk["port"] and x["server"] == lk["server"]
            and x["txt"] == lk["txt"]]
     if old:
-        # the result is exactly a superseded version k.  Known finding when the link reordered the update: the host was handed
-        # records of version k (still unexpired when the lookup ended) AFTER it had first been handed records of a later version
-        # (every version has its own port and TXT).  Both stay cached (RFC 6762 10.2: nothing younger than one second is flushed),
-        # later repeats of the new records refresh their entry in place, and `_load_from_cache` takes the LAST INSERTED unexpired
-        # SRV / TXT -- the overtaken old one -- instead of the most recently received
+        # the result is exactly a superseded version k.  Known finding F3 when -- by the harness's own account of what the host
+        # PROCESSED -- the records of version k and of the advertised version are both alive in its cache when the lookup ends and
+        # the advertised one was received more recently: `_load_from_cache` takes the LAST INSERTED unexpired SRV / TXT instead.
+        # How both can be alive: RFC 6762 10.2 flushes nothing younger than one second, so the old record survives when it
+        # overtook the update on the link, or when a query answer refreshed it less than a second before the update and the
+        # update's third announcement -- a verbatim repeat of the second -- was dropped by the duplicate-packet guard
         k = old[-1]
-        seen = records_seen(obs, bh, lk["t1"])
-
-        def ver_of(t, r):
-            # (a version can repeat the content of an earlier one: a record handed over at t can only be of a version advertised by t)
-            if isinstance(r, DNSService) and r.name.lower() == name:
-                return [j for j, x in enumerate(allv) if x["port"] == r.port and x["t"] <= t]
-            if isinstance(r, DNSText) and r.name.lower() == name:
-                return [j for j, x in enumerate(allv) if x["txt"] == r.text.hex() and x["t"] <= t]
-            return []
-
-        def newer_only(t, r):  # a record that tells a later version from version k
-            v = ver_of(t, r)
-            return any(j > k for j in v) and k not in v
-
-        def old_only(t, r):
-            v = ver_of(t, r)
-            return k in v and not any(j > k for j in v)
-
-        first_newer = min([t for (t, r) in seen if r.ttl > 0 and newer_only(t, r)] or [None], key=lambda v: (v is None, v))
-        # ... and only while old records can still be on their way: sent before the update that superseded them, or queued before it
-        # and multicast within the responder's answer window after it (D20, a finding of C03 / C08), plus 100 ms on the link
-        if first_newer is not None and any(r.ttl > 0 and old_only(t, r) and first_newer <= t <= allv[k + 1]["t"] + CFG["respAfter"] + CFG["maxDelay"]
-                                           and t + 1000 * r.ttl > lk["t1"] for (t, r) in seen):
-            return "superseded-version-overtook-the-update-on-the-link"
+        cur = vs[-1] if vs else None
+        if cur is None:
+            return ""
+        alive = shadow_cache(obs, bh, name, lk["t1"])
+        need = []
+        if allv[k]["port"] != cur["port"]:
+            need.append((("srv", allv[k]["port"]), ("srv", cur["port"])))
+        if allv[k]["txt"] != cur["txt"]:
+            need.append((("txt", allv[k]["txt"]), ("txt", cur["txt"])))
+        if need and all(ko in alive and kc in alive and alive[kc] > alive[ko] for ko, kc in need):
+            return "last-inserted-record-preferred-to-the-most-recently-received"
         return ""
     if lk["txt"] == "" and all(x["txt"] for x in allv) and any(
             x["port"] == lk["port"] and x["server"] == lk["server"] for x in vs):
@@ -1691,7 +1714,7 @@ def resurrection_cause(case, obs, s, host=None):
 
 
 KNOWN_SIGS = {"C07:goodbyes-cut-by-close", "C07:not-removed:goodbyes-cut-by-close", "C07:lookup-from-added-wrong:success-without-txt",
-              "C07:not-added:type-spelled-in-another-case", "C07:lookup-from-added-wrong:superseded-version-overtook-the-update-on-the-link",
+              "C07:not-added:type-spelled-in-another-case", "C07:lookup-from-added-wrong:last-inserted-record-preferred-to-the-most-recently-received",
               "C07:not-removed:goodbye-repeats-ignored-by-the-other-sockets-duplicate-guard"}
 
 
